@@ -9,6 +9,34 @@ CLAIMED = {
             "deterministic simulation: real server protocol stack on a fake kernel, scripted raw peers injecting segmentation, stalls, half-close, reset and slow reading; wire-grammar + expected-response oracle per connection history",
             "Seeded search over request bytes x handler/middleware outcomes x peer faults x transport modes (plain, stdlib TLS, PyOpenSSL) x server assemblies (bare protocol, start_server with root or locations); every connection's received bytes are judged against the response grammar, the handler's own response and the exactly-once/close rules.",
             "Trusts FakeSocket's TCP model (FIFO, lossless, FIN on close) and the scripted peer's TLS engine; self-inflicted truncation (peer reset / TLS peer sending after its request or half-closing) is three-valued."),
+    "C03": ("exploration", "4/C03",
+            "deterministic simulation: real GeminiClient + TOFUDatabase against scripted TLS servers, seeded operation/environment histories checked step by step against an abstract pin-map reference model",
+            "Seeded histories of get/upload/delete, trust/revoke/clear/import and environment steps (certificate swaps incl. parser-rejected certificates, redirects) over 6 endpoints, TOFU on/off; after every step the known_hosts table must equal the model and every call's outcome is prescribed by it.",
+            "Fingerprints are computed by the harness from the fixture DER; redirect chains are one hop long here (graphs are C16)."),
+    "C11": ("exploration", "4/C11",
+            "deterministic simulation: impostor/lazy/never-reading scripted TLS peers decrypt everything the real client transmits; ordering of pin lookup vs first application record by the simulator's global event sequence (SQL seam + socket seam)",
+            "Seeded histories of get/upload/delete against peers whose certificate matches, is new, changed or unreadable, incl. redirect hops; a peer that fails verification must have decrypted zero application bytes, and on every TOFU connection the first application record is sent after the pin lookup.",
+            "TLS 1.3 record layout is used to locate the first application record; alerts are not application bytes."),
+    "C12": ("fault_enumeration", "4/C12",
+            "deterministic simulation with fault enumeration: every SQL statement boundary and commit of the target store operation is used once as a crash point (db + journal snapshot, reopen, hot-journal recovery) and once as an injected error; before/after reference model",
+            "For seeded histories over adversarial host names the last operation is re-executed from the same durable state once per tick and fault kind; the table must be exactly as before or exactly as after; export/import round trips are compared field by field.",
+            "Crash points inside sqlite's C commit are delegated to sqlite's atomic commit; last_seen is ignored."),
+    "C13": ("exploration", "4/C13",
+            "deterministic simulation: scripted server byte streams (grammar + corruptions) with seeded segmentation and end-of-stream faults (close_notify, FIN, RST, stall at any prefix) against the real client under a virtual clock; termination-deadline, faithfulness and baseline-differential oracles",
+            "Seeded search over response streams x ends x entry points (protocol classes on a plain connection, GeminiClient.get/upload over TLS); the call must end by a deadline derived from when the server's last action reached the client (or the timeout), with a faithful response or an Exception, independent of segmentation.",
+            "1 s virtual slack; grammar grey zones and FIN-without-close_notify are three-valued."),
+    "C14": ("exploration", "4/C14",
+            "deterministic simulation with storage fault injection: real FileUploadHandler (direct and through the protocol) on a generated tree with symlinks, file-operation fault seam (torn writes, EACCES, failing mkdir/replace); before/after snapshot diff against a permitted-change model",
+            "Seeded search over paths, sizes, tokens, media types, delete switch and fault plans; a 2x must correspond to exactly one permitted file change with exactly the declared bytes inside the upload directory, a non-2x to no file change at all.",
+            "New empty directories after a failed request are tolerated; the seam covers builtins.open/io.open/os.replace/rename/unlink/mkdir."),
+    "C16": ("exploration", "4/C16",
+            "deterministic simulation: real GeminiClient against scripted TLS servers serving seeded redirect graphs; graph-walk reference model, connection counting by the simulated network",
+            "Seeded graphs (chains, cycles, self-loops, cross-host hops, grey targets) x max_redirects 0-6 x follow on/off x pinned-certificate mismatches on hops; connection bound, request-line schemes, result class and per-hop pin verification are checked against a walk of the graph.",
+            "Relative / non-gemini / malformed targets are grey (3x handed back or error); only requesting them is forbidden."),
+    "C18": ("exploration", "4/C18",
+            "deterministic simulation: downstream raw peer -> real proxy (ProxyHandler + real client) -> scripted faulty upstream, seeded fault injection at every stage under a virtual clock; verbatim-or-43 classification oracle",
+            "Seeded search over upstream behaviours (all status classes, charsets, binary, oversized, redirects; refuse, black hole, plaintext, close/RST/stall at each stage) x location timeouts x assemblies (bare protocol, start_server on both TLS backends) x downstream peers that wait or leave; one well-formed response, verbatim or 43 as mandated, within the bound, one upstream connection.",
+            "1 s virtual slack; unclean upstream end after a complete response is three-valued."),
     "C04": ("exploration", "4/C04",
             "deterministic simulation: real MiddlewareChain with real and scripted components behind recorder wrappers, happens-before oracle over recorder/spy logs and directory snapshots",
             "Seeded search over chain shapes, component outcomes (allow/deny/raise/slow), gemini and titan requests, peer addresses and client certificates, with the chain's completion interleaved against content arrival, the request timer and peer disconnects; plus start_server()'s own chain assembly on both TLS backends.",
